@@ -376,7 +376,10 @@ func (s *Store) lookupSecretInternal(ctx context.Context, name string) (Secret, 
 	// in which case we want to retry (up to a safety limit) when we discover
 	// the result was due to a context cancellation other than our own.
 	for {
+		var ledFlight bool // whether this call, not a concurrent one, made the request
 		v, err, _ := s.single.Do("lookup:"+name, func() (any, error) {
+			ledFlight = true
+
 			// If the winning caller's context doesn't already have a deadline,
 			// impose a safety fallback so requests do not stall forever if the
 			// infrastructure is farkakte.
@@ -404,7 +407,7 @@ func (s *Store) lookupSecretInternal(ctx context.Context, name string) (Secret, 
 		if err == nil {
 			return v.(Secret), nil
 		} else if errors.Is(err, context.DeadlineExceeded) || errors.Is(err, context.Canceled) {
-			if ctx.Err() == nil {
+			if ctx.Err() == nil && !ledFlight {
 				// This wasn't us timing out, try again.
 				continue
 			}
